@@ -163,10 +163,13 @@ type World struct {
 	// ghost: last recorded state of the HTLCs of an invoice that was deleted by a configured
 	// garbage collection, per side
 	ghost []map[int]string
+	// scheme: the values of the circuit keys k1..k8
+	scheme *keyScheme
 }
 
 type worldOpts struct {
 	kind   string
+	scheme string // circuit-key scheme ("" = plain)
 	keys   int // bound on recorded HTLCs (0 = maxKeys)
 	two    bool // a bystander invoice exists next to the invoice under test
 	stores []string // default kv+sql
@@ -189,9 +192,13 @@ func newWorld(o worldOpts) (*World, error) {
 	if k.JIT != "" {
 		o.two = false
 	}
-	w := &World{kind: k, rec: map[int]recKey{}, rep: o.rep, st: o.st, logf: o.logf, keys: o.keys, two: o.two}
+	ks, err := schemeOf(o.scheme)
+	if err != nil {
+		return nil, err
+	}
+	w := &World{kind: k, rec: map[int]recKey{}, rep: o.rep, st: o.st, logf: o.logf, keys: o.keys, two: o.two, scheme: ks}
 	for _, name := range o.stores {
-		s, err := newSide(name, k, o.two)
+		s, err := newSide(name, k, o.two, ks)
 		if err != nil {
 			w.Close()
 			return nil, err
@@ -266,13 +273,14 @@ func (w *World) violate(clause, store, detail, what string) {
 // bystander invoice of a "two" world is constant (a change is a violation and ends the
 // world). The harness' own memory (what each recorded circuit key carried -- needed for
 // exact replays and for the address clause --, the verdict history, the height, and the last
-// states of the HTLCs of a garbage-collected invoice) is part of the key.
+// states of the HTLCs of a garbage-collected invoice) is part of the key. The circuit-key scheme
+// (which VALUES k1..k8 stand for) is constant per world and named in the key.
 func (w *World) Key() string {
 	if w.dead != "" {
 		return "DEAD:" + w.dead
 	}
 	var b strings.Builder
-	fmt.Fprintf(&b, "%s h+%d | %s |", w.kind.Name, w.hOff, w.last[0].canon())
+	fmt.Fprintf(&b, "%s/%s h+%d | %s |", w.kind.Name, w.scheme.Name, w.hOff, w.last[0].canon())
 	// in-memory state of the registry instance (provenance: a restarted registry has neither
 	// subscriptions nor timers for the HTLCs it finds accepted in the store): per accepted
 	// HTLC whether this instance holds its subscription / timer, and -- while the invoice is
@@ -522,10 +530,10 @@ func (w *World) Do(op string) error {
 func (w *World) describe(ev event) string {
 	switch ev.class {
 	case "htlc":
-		return fmt.Sprintf("%s (new htlc k%d, hash %s, amt %d, declared total %d, addr %q, expiry %d at height %d)", ev.op, ev.key,
-			ev.spec.hash(w.kind).String()[:8], ev.spec.Amt, ev.spec.declaredTotal(), string(rune0(ev.spec.Addr)), ev.spec.absExpiry(w.kind), w.height())
+		return fmt.Sprintf("%s (new htlc k%d = (%s), hash %s, amt %d, declared total %d, addr %q, expiry %d at height %d)", ev.op, ev.key,
+			w.scheme.describe(ev.key), ev.spec.hash(w.kind).String()[:8], ev.spec.Amt, ev.spec.declaredTotal(), string(rune0(ev.spec.Addr)), ev.spec.absExpiry(w.kind), w.height())
 	case "replay":
-		return fmt.Sprintf("%s (exact replay of k%d = %s at height %d)", ev.op, ev.key, w.rec[ev.key].Op, w.height())
+		return fmt.Sprintf("%s (exact replay of k%d = (%s) = %s at height %d)", ev.op, ev.key, w.scheme.describe(ev.key), w.rec[ev.key].Op, w.height())
 	}
 	return ev.op
 }
